@@ -6,15 +6,16 @@ from pyvc.contracts import contract, inline
 
 _G = "uxarray.grid.grid.Grid."
 # read-only accessors of the grid (assumed: they return what the grid's dataset holds and store nothing)
-for _p in ("n_face", "n_max_face_nodes", "n_node", "n_edge"):
-    contract(_G + _p, trusted=True, props=["C02", "C03"], params={"self": "obj('Grid')"}, returns="opaque",
+for _p in ("n_max_face_nodes",):
+    contract(_G + _p, variant="ds_view", trusted=True, props=["C02", "C03"], params={"self": "obj('Grid')"}, returns="opaque",
              ensures=[f"same(result, uf('{_p}', src(self)))"], notes="dimension size read from the grid's dataset (assumed)")
-contract(_G + "face_node_connectivity", trusted=True, props=["C02", "C03"], params={"self": "obj('Grid')"}, returns="opaque",
+contract(_G + "face_node_connectivity", variant="ds_view", trusted=True, props=["C02", "C03"], params={"self": "obj('Grid')"}, returns="opaque",
          requires=["has(self._ds, 'face_node_connectivity')"],
          ensures=["same(result, entry(self._ds, 'face_node_connectivity'))", "same(result.values, entry(self._ds, 'face_node_connectivity').values)"],
          notes="returns the dataset's variable (the 1-D single-face reshape branch is not modelled)")
 
 _K = "uxarray.grid.connectivity."
+_VIEW = {"callee_variants": {"uxarray.grid.grid.Grid.face_node_connectivity": "ds_view", "uxarray.grid.grid.Grid.n_max_face_nodes": "ds_view"}}
 
 contract(_K + "_build_edge_node_connectivity", trusted=True, props=["C02"],
          params={"face_nodes": "opaque", "n_face": "opaque", "n_max_face_nodes": "opaque"},
@@ -30,7 +31,105 @@ contract(_K + "_populate_edge_node_connectivity", props=["C02", "C08"],
          requires=["has(grid._ds, 'face_node_connectivity')"],
          ensures=["has(grid._ds, 'edge_node_connectivity')",
                   "same(entry(grid._ds, 'edge_node_connectivity').data, uf('edge_nodes', entry(grid._ds, 'face_node_connectivity').values))",
+                  "has(entry(grid._ds, 'edge_node_connectivity').attrs, 'inverse_indices')",
                   "same(entry(grid._ds, 'edge_node_connectivity').attrs['inverse_indices'], "
-                  "uf('edge_inverse', entry(grid._ds, 'face_node_connectivity').values))"],
-         options={"frames": True},
+                  "uf('edge_inverse', entry(grid._ds, 'face_node_connectivity').values))",
+                  # no other variable of the grid is added, dropped or replaced
+                  "ds_frame(grid._ds, old(grid._ds), ['edge_node_connectivity'])"],
+         modifies=["grid._ds['edge_node_connectivity']"],
+         options={"frames": True, **_VIEW},
          raises=[("Exception", "False", "only_if")])
+
+
+# ---- face_edge_connectivity: reshaped from the inverse indices of THIS grid's edge derivation ---------------------------------------
+# representation invariant of the side table: if the grid's edge_node_connectivity carries inverse_indices, they are the ones
+# np.unique produced for this grid's face_node_connectivity (a table supplied by a reader has no such attribute)
+_EN = "entry(grid._ds, 'edge_node_connectivity')"
+_FNV = "entry(grid._ds, 'face_node_connectivity').values"
+_INV_EN = (f"implies(has(grid._ds, 'edge_node_connectivity') and has({_EN}.attrs, 'inverse_indices'), "
+           f"same({_EN}.attrs['inverse_indices'], uf('edge_inverse', {_FNV})))")
+inline(_G + "edge_node_connectivity")
+contract(_K + "_populate_face_edge_connectivity", props=["C02", "C08"],
+         params={"grid": "obj('Grid', attrs='dict')"},
+         returns="none",
+         requires=["has(grid._ds, 'face_node_connectivity')", _INV_EN],
+         ensures=["has(grid._ds, 'face_edge_connectivity')",
+                  # the stored table is the reshape of the inverse indices of this grid's own edge derivation
+                  f"same(entry(grid._ds, 'face_edge_connectivity').data, summary('{_K}_build_face_edge_connectivity', "
+                  f"uf('edge_inverse', {_FNV}), dim(grid, 'n_face'), uf('n_max_face_nodes', src(grid))))",
+                  "ds_frame(grid._ds, old(grid._ds), ['face_edge_connectivity', 'edge_node_connectivity'])",
+                  # an edge table that was already there is used as it is
+                  "implies(old(has(grid._ds, 'edge_node_connectivity') and has(entry(grid._ds, 'edge_node_connectivity').attrs, "
+                  "'inverse_indices')), same(entry(grid._ds, 'edge_node_connectivity'), old(entry(grid._ds, 'edge_node_connectivity'))))",
+                  _INV_EN],
+         modifies=["grid._ds['face_edge_connectivity']", "grid._ds['edge_node_connectivity']"],
+         options={"frames": True, "abstract": True, "summaries": [_K + "_build_face_edge_connectivity"], **_VIEW},
+         raises=[("Exception", "False", "only_if")])
+
+
+# ---- the remaining connectivity plumbing: what is stored, where, and computed from which of THIS grid's tables -----------------------
+# value(T) below is the `.values` of variable T of the grid's dataset in the post-state (a lazily derived input table was added by
+# the nested populate call and is not touched afterwards: ds_frame).
+def _val(name):
+    return f"entry(grid._ds, '{name}').values"
+
+
+_NF, _NMAX, _NN = "dim(grid, 'n_face')", "uf('n_max_face_nodes', src(grid))", "dim(grid, 'n_node')"
+inline(_G + "n_face", _G + "n_node", _G + "n_edge", _G + "n_nodes_per_face", _G + "face_edge_connectivity",
+       _G + "edge_face_connectivity", _G + "node_face_connectivity", _G + "face_face_connectivity")
+
+# n_nodes_per_face
+_B = f"summary('{_K}_build_n_nodes_per_face', {_val('face_node_connectivity')}, {_NF}, {_NMAX})"
+contract(_K + "_populate_n_nodes_per_face", props=["C02", "C08"],
+         params={"grid": "obj('Grid', attrs='dict')"}, returns="none",
+         requires=["has(grid._ds, 'face_node_connectivity')", _INV_EN],
+         ensures=["has(grid._ds, 'n_nodes_per_face')",
+                  f"same(entry(grid._ds, 'n_nodes_per_face').data, {_B}) or "
+                  f"same(entry(grid._ds, 'n_nodes_per_face').data, lib('numpy.expand_dims', {_B}, 0))",
+                  "ds_frame(grid._ds, old(grid._ds), ['n_nodes_per_face'])", _INV_EN],
+         modifies=["grid._ds['n_nodes_per_face']"],
+         options={"frames": True, "abstract": True, "summaries": [_K + "_build_n_nodes_per_face"], **_VIEW},
+         raises=[("Exception", "False", "only_if")])
+
+# edge_face_connectivity: from this grid's face_edge table, corner counts and edge count
+contract(_K + "_populate_edge_face_connectivity", props=["C03", "C08"],
+         params={"grid": "obj('Grid', attrs='dict')"}, returns="none",
+         requires=["has(grid._ds, 'face_node_connectivity')", _INV_EN],
+         ensures=["has(grid._ds, 'edge_face_connectivity')",
+                  f"same(entry(grid._ds, 'edge_face_connectivity').data, summary('{_K}_build_edge_face_connectivity', "
+                  f"{_val('face_edge_connectivity')}, {_val('n_nodes_per_face')}, dim(grid, 'n_edge')))",
+                  "ds_frame(grid._ds, old(grid._ds), ['edge_face_connectivity', 'face_edge_connectivity', 'edge_node_connectivity', "
+                  "'n_nodes_per_face'])",
+                  # inputs that were already there are used as they are
+                  "implies(old(has(grid._ds, 'face_edge_connectivity')), same(entry(grid._ds, 'face_edge_connectivity'), "
+                  "old(entry(grid._ds, 'face_edge_connectivity'))))",
+                  _INV_EN],
+         modifies=["grid._ds['edge_face_connectivity']", "grid._ds['face_edge_connectivity']", "grid._ds['edge_node_connectivity']",
+                   "grid._ds['n_nodes_per_face']"],
+         options={"frames": True, "abstract": True, "summaries": [_K + "_build_edge_face_connectivity"], **_VIEW},
+         raises=[("Exception", "False", "only_if")])
+
+# node_face_connectivity
+contract(_K + "_populate_node_face_connectivity", props=["C03", "C08"],
+         params={"grid": "obj('Grid', attrs='dict')"}, returns="none",
+         requires=["has(grid._ds, 'face_node_connectivity')", _INV_EN],
+         ensures=["has(grid._ds, 'node_face_connectivity')",
+                  f"same(entry(grid._ds, 'node_face_connectivity').data, item(summary('{_K}_build_node_faces_connectivity', "
+                  f"{_val('face_node_connectivity')}, {_NN}), 0))",
+                  "ds_frame(grid._ds, old(grid._ds), ['node_face_connectivity'])", _INV_EN],
+         modifies=["grid._ds['node_face_connectivity']"],
+         options={"frames": True, "abstract": True, "summaries": [_K + "_build_node_faces_connectivity"], **_VIEW},
+         raises=[("Exception", "False", "only_if")])
+
+# face_face_connectivity (the builder reads the grid itself)
+contract(_K + "_populate_face_face_connectivity", props=["C03", "C08"],
+         params={"grid": "obj('Grid', attrs='dict')"}, returns="none",
+         requires=["has(grid._ds, 'face_node_connectivity')", _INV_EN],
+         ensures=["has(grid._ds, 'face_face_connectivity')",
+                  f"same(entry(grid._ds, 'face_face_connectivity').data, summary('{_K}_build_face_face_connectivity', grid))",
+                  "ds_frame(grid._ds, old(grid._ds), ['face_face_connectivity'])", _INV_EN],
+         modifies=["grid._ds['face_face_connectivity']"],
+         options={"frames": True, "abstract": True, "summaries": [_K + "_build_face_face_connectivity"], **_VIEW},
+         raises=[("Exception", "False", "only_if")],
+         notes="_build_face_face_connectivity(grid) is summarised as a function of the grid: the tables it derives lazily on the way "
+               "(edge_face_connectivity) are NOT visible in this frame condition - assumption")
